@@ -237,6 +237,8 @@ def shrink(hbin, b, cfg, listed):
             # a spare processor that cannot be initialised, behind the only working one
             kind = "empty" if ":empty" in mach0 else "noreg"
             cands.append("%s,1,1,chain:P1:r8:incs.0:%s1" % (mode, kind))
+        elif ":cmd" in mach0:
+            cands.append("%s,1,1,chain:P1:r8:incs.0:cmd%s" % (mode, "exec" if ":cmdexec" in mach0 else "list"))
         elif ":fail" not in mach0:
             cands.append("%s,1,1,chain:P1:r8:incs.0" % mode)
         else:
@@ -349,7 +351,8 @@ def run(rep):
                 "SinglePipelineSimulate calls, Fitness_default, raw VM launch/step/shutdown, bmreqs and basm "
                 "instances on generated chain machines (1..4 processors, 8/16/32 bit), the same on machines with "
                 "1..3 extra processors whose every step fails (addf16 at 8/32 bit), on machines with a spare processor that "
-                "cannot be initialised (empty program / no registers) at a random index, simulations showing a value in a "
+                "cannot be initialised (empty program / no registers) at a random index, on machines whose cores list / execute "
+                "the command-channel opcodes (r2v k2r t2r), simulations showing a value in a "
                 "dynamic number type (fps/fxps/lqs; process-wide registry sizes observed around every batch), and cmd/simfinetune's "
                 "FitnessFunction worker pool with Workers in {4, 1, 0, negative}; evaluations = simulation calls; "
                 "non-trivial = a batch that started at least one worker; distinct = distinct (mode, n, k, machine)",
